@@ -785,6 +785,13 @@ example : readFramesT (fun b => some b) 100 [.data [0, 0, 0, 0, 0, 0, 0, 2, 7], 
 example : readFramesT (fun b => some b) 100 [.data [0, 0, 0, 0, 0, 0, 0, 2, 7], .data [8, 0, 0]] =
     [.ok [7, 8], .err .eof] := by decide
 
+/-- E-SRC tie of `Codec.processMessage`: in `handle_message` the serialized branch answers a decoder
+`Err` and a decoder panic with `return Ok(())` (the loop goes on), the local branch propagates with `?`. -/
+theorem extracted_handle_message_branches :
+    Extracted.handleMessageSerializedArms =
+      ["Ok(Ok(message))=>message", "Ok(Err(_))=>{returnOk(());}", "Err(_)=>{returnOk(());}"] ∧
+    Extracted.handleMessageLocalBranch = "TActor::Msg::from_boxed(msg)?" := by decide
+
 end C19
 
 #print axioms C19.int_roundtrip
@@ -829,3 +836,4 @@ end C19
 #print axioms C19.local_decode_failure_stops_the_actor
 #print axioms C19.rpc_variant_roundtrip_any_port_position
 #print axioms C19.reader_over_failing_transport
+#print axioms C19.extracted_handle_message_branches
